@@ -887,6 +887,40 @@ func init() {
 // keeps its error; resetting it would make the next payload of the same
 // sub-stream start a fresh reader in the middle of an IPC stream and fail with
 // an unrelated error (or decode against missing dictionaries).
+// fromNewReader: v is the reader result of ipc.NewReader, directly or through
+// a package helper all of whose returns hand back such a result.
+func fromNewReader(v ssa.Value, depth int) bool {
+	ex, ok := v.(*ssa.Extract)
+	if !ok || ex.Index != 0 || depth > 2 {
+		return false
+	}
+	cl, ok := ex.Tuple.(*ssa.Call)
+	if !ok {
+		return false
+	}
+	if core.IsPkgFunc(core.CalleeObj(cl), arrowIPC, "NewReader") {
+		return true
+	}
+	h := cl.Call.StaticCallee()
+	if h == nil || h.Blocks == nil || h.Pkg == nil || h.Pkg.Pkg.Path() != pkgArrowRecord {
+		return false
+	}
+	n := 0
+	for _, r := range core.Returns(h) {
+		if len(r.Results) == 0 {
+			return false
+		}
+		if core.IsNilConst(r.Results[0]) {
+			continue
+		}
+		if !fromNewReader(r.Results[0], depth+1) {
+			return false
+		}
+		n++
+	}
+	return n > 0
+}
+
 func c14_8(c *core.Ctx, p *core.Prog) {
 	pk := p.Pkg(pkgArrowRecord)
 	if pk == nil {
@@ -951,12 +985,7 @@ func c14_8(c *core.Ctx, p *core.Prog) {
 					return
 				}
 				nS++
-				fromNew := false
-				if ex, ok := s.Val.(*ssa.Extract); ok {
-					if cl, ok := ex.Tuple.(*ssa.Call); ok && core.IsPkgFunc(core.CalleeObj(cl), arrowIPC, "NewReader") {
-						fromNew = true
-					}
-				}
+				fromNew := fromNewReader(s.Val, 0)
 				c.Check(fromNew, fmt.Sprintf("store#%d@%s", nS, core.FuncName(fn)), p.Pos(s.Pos()), core.FuncName(fn), "the reader field is assigned from ipc.NewReader",
 					"the reader of a registered stream consumer is overwritten (e.g. reset to nil after an error): the next payload of that sub-stream starts a fresh reader in the middle of the IPC stream and is refused with an unrelated error instead of the sticky (memory-limit) error")
 			}
